@@ -59,7 +59,8 @@ class COPY_VALUE:
                  **{"dict": dict(data=DICT), "str": dict(data=STR), "int": dict(data=INT), "float": dict(data=FLOAT),
                     "none": dict(data=NONE), "bool": dict(data=BOOL), "other": dict(data=OBJ_NN)})
     comprehensions = {0: "lambda d, r: copied(r, d)", 1: "lambda k, v, r: copied(r, v)"}
-    returns = {"produced_by_copy_value": "copied(result, data)"}
+    returns = {"produced_by_copy_value": "copied(result, data)",
+               "never_the_sentinel": "implies(not (data is unprovided), not (result is unprovided))"}
     definitional = ["produced_by_copy_value"]
     returns_by_case = dict(
         {k: {"fresh": "fresh(result)", "same_class": "typeof(result) is typeof(data)", "same_length": "len(result) == len(data)",
@@ -133,6 +134,8 @@ def _gd_spec(case):
         d["nothing_to_give"] = "result is unprovided"
     else:
         d["a_copy_of_the_declared_default"] = "implies(%s, copied(result, %s))" % (gate, src)
+        if src != "call_value0(self.default_factory)":
+            d["a_real_value"] = "implies(%s, not (result is unprovided))" % gate
     return d
 
 
